@@ -39,9 +39,20 @@ class Monitor:
     def __init__(self, cfg: dict) -> None:
         self.version = cfg["version"]
         self.nodes = cfg["nodes"]
-        self.s = Session(self.version)
+        self.persist = bool(cfg.get("persistence"))
+        if self.persist:
+            from aiomysensors.gateway import Config
+
+            from .. import fsshim, pers
+
+            self.s = Session(self.version, Config(persistence_file=pers.PATH))
+            self.vfs = fsshim.VFS()
+        else:
+            self.s = Session(self.version)
         self.model = R.RegistryModel()
         self.outstanding: set[int] = set()
+        self.sleeping: set[int] = set()  # model: nodes that announced sleep (their wake releases parked commands)
+        self.app_parked: set[int] = set()  # presentation requests the APPLICATION sent that are parked for a sleeping node
         self.nontrivial = False
         self.last_desc = None
         self._alpha = []
@@ -56,6 +67,12 @@ class Monitor:
         self._alpha.append(["line", [0, 255, 3, 0, 2, self.version]])
         self._alpha.append(["line", [0, 255, 0, 0, 18, self.version]])
         self._alpha.append(["line", [0, 255, 3, 0, 9, "log"]])
+        # the application itself asks a node to present itself (a send, parked if that node sleeps)
+        if cfg.get("app"):
+            for n in self.nodes:
+                self._alpha.append(["app-request", [n, 255, 3, 0, 19, ""]])
+        if self.persist:
+            self._alpha.append(["reenter", [0, 0, 0, 0, 0, ""]])
 
     def events(self) -> list:
         return self._alpha
@@ -70,6 +87,27 @@ class Monitor:
             viols.append((f"C10|{k}|{'2.x' if R.is2x(v) else '1.x'}", f"[{v}] {kind} {R.enc(*f)!r}: {what}", None))
 
         s = self.s
+        if kind == "app-request":
+            from aiomysensors.model.message import Message
+
+            out = s.send(Message(*f))
+            self.last_desc = out.describe()
+            self.nontrivial = False
+            if out.kind == "return" and not out.writes and n in self.model.nodes:
+                self.app_parked.add(n)
+            return viols
+        if kind == "reenter":
+            from .. import pers
+
+            gw = s.gateway
+            k1, v1 = pers.run(gw.__aenter__, self.vfs)
+            k2, v2 = pers.run(lambda: gw.__aexit__(None, None, None), self.vfs) if k1 == "ok" else ("skipped", None)
+            self.last_desc = {"reenter": [k1, type(v1).__name__, k2, type(v2).__name__]}
+            self.nontrivial = False
+            if k1 != "ok" or k2 != "ok":
+                bad("reenter-failed", f"leaving and re-entering the context gave {k1} {v1!r} / {k2} {v2!r}")
+            s._agen = None
+            return viols
         if kind == "line-fail":
             from ..harness import FAULT_CLASSES
 
@@ -81,6 +119,12 @@ class Monitor:
         self.last_desc = out.describe()
         att19 = [(l, ok) for l, ok in out.attempts if is_req19(l)]
         exp = self.model.expect(v, f)
+        is_wake = f[2] == 3 and f[4] == R.wake_type(v) if R.is2x(v) else False
+        if is_wake and exp[0] == "ok" and n in self.app_parked:
+            # the application's own parked request is released by the wake (C07/C12): not ours to judge
+            att19 = [a for a in att19 if a[0] != R.enc(n, 255, 3, 0, 19, "")] + [a for a in att19 if a[0] == R.enc(n, 255, 3, 0, 19, "")][1:]
+            if out.kind == "yield":
+                self.app_parked.discard(n)
         want = R.enc(n, 255, 3, 0, 19, "")
         self.nontrivial = exp[0] != "ok"
         if not R.is2x(v):
@@ -108,11 +152,14 @@ class Monitor:
             self.model.apply(v, f)
             if f[2] == 0 and f[1] == 255:
                 self.outstanding.discard(n)
+                self.sleeping.discard(n)
+            if is_wake:
+                self.sleeping.add(n)
         return viols
 
     def key(self):
         shape = tuple(sorted((n, tuple(sorted(d['children']))) for n, d in self.model.nodes.items()))
-        return (canon_gateway(self.s.gateway), shape, tuple(sorted(self.outstanding)))
+        return (canon_gateway(self.s.gateway), shape, tuple(sorted(self.outstanding)), tuple(sorted(self.app_parked)))
 
 
 def make(cfg):
@@ -122,8 +169,12 @@ def make(cfg):
 def run(ctx: core.Ctx) -> core.Report:
     if ctx.quick:
         cfgs = [{"version": v, "nodes": [1, 2]} for v in R.VERSIONS]
+        cfgs.append({"version": "2.1", "nodes": [1], "persistence": True})
+        cfgs.append({"version": "2.2", "nodes": [1], "app": True})
     else:
         cfgs = [{"version": v, "nodes": [1, 2, 3] if v in ("1.5", "2.0", "2.2") else [1, 2]} for v in R.VERSIONS]
+        cfgs += [{"version": v, "nodes": [1, 2], "persistence": True} for v in ("1.5", "2.0", "2.2")]
+        cfgs += [{"version": v, "nodes": [1, 2], "app": True} for v in ("2.0", "2.2")]
     res = bfs.search(ctx, MOD, cfgs, max_depth=60)
     cov = {
         "states": res["states"],
